@@ -72,12 +72,14 @@ class LinEnv:
     2 step k0 if z<zs else k1) ; hdiff = a0 + ax*x + ay*y ; metric dx ; ingrid box ;
     is_close_to_land = x < coastx (optional, not part of the driver's EnvSpec: the harness decides who is re-seeded) ;
     temp = t0 + tz*z ; salt = s0 + sz*z ; bottom velocity (ub, vb) constant ;
-    lonlat = (lon0 + lonx*x, lat0 + laty*y) (optional slopes, default 0; not part of the driver's EnvSpec)"""
+    lonlat = (lon0 + lonx*x, lat0 + laty*y) (optional slopes, default 0; not part of the driver's EnvSpec) ;
+    optional horizontal slopes tx, sx (temp/salt += tx*x, sx*x) and dxx (metric = dx + dxx*x), default 0 = the fields
+    above unchanged; not part of the driver's EnvSpec (the model gets the sampled temp/salt per particle)"""
 
     def __init__(self, h0=50.0, hx=0.0, hy=0.0, w0=0.0, wz=0.0, kkind=0, k0=0.0, k1=0.0, zs=0.0,
                  a0=0.0, ax=0.0, ay=0.0, dx=100.0, xmin=1.0, xmax=20.0, ymin=1.0, ymax=20.0,
                  t0=8.0, tz=0.0, s0=34.0, sz=0.0, ub=0.0, vb=0.0, lon0=5.0, lat0=60.0, coastx=None,
-                 lonx=0.0, laty=0.0):
+                 lonx=0.0, laty=0.0, tx=0.0, sx=0.0, dxx=0.0):
         self.__dict__.update(locals())
         del self.__dict__["self"]
         self.calls = []
@@ -105,6 +107,8 @@ class LinEnv:
 
     def metric(self, x, y):
         a = np.zeros_like(np.asarray(x, dtype=float)) + self.dx
+        if self.dxx != 0.0:
+            a = a + self.dxx * np.asarray(x, dtype=float)
         return a, a
 
     def ingrid(self, x, y):
@@ -120,9 +124,11 @@ class LinEnv:
     def field(self, x, y, z, name):
         z = np.asarray(z, dtype=float)
         if name == "temp":
-            return self.t0 + self.tz * z
+            r = self.t0 + self.tz * z
+            return r if self.tx == 0.0 else r + self.tx * np.asarray(x, dtype=float)
         if name == "salt":
-            return self.s0 + self.sz * z
+            r = self.s0 + self.sz * z
+            return r if self.sx == 0.0 else r + self.sx * np.asarray(x, dtype=float)
         raise KeyError(name)
 
     def velocity(self, x, y, z, tstep=0, method="bilinear"):
